@@ -2,9 +2,10 @@
 from vk.rtc.harness import run_cases
 from vk.specs import walker
 
-LEVEL = "exploration"
+LEVEL = "other"
 TECHNIQUE = ("frame contracts (modifies-nothing on the represented vector of every live object, no shared tensor memory) evaluated at run time over "
-             "random finite operation histories on the real methods (bounded stand-in); exact symbolic frame identities per shape where listed")
+             "random finite operation histories on the real methods, chains and trees (bounded stand-in); static modifies clauses of ~70 public methods discharged over "
+             "the current source by an alias/effect analysis (every write through a parameter alias must be covered by the clause)")
 
 
 def worker(case, led):
@@ -25,5 +26,8 @@ def check(run):
                 "its recorded value; distinct = (model, size, seed, step, op, object)")
     run.sample({"model": "holstein", "nsites": 4, "history": ["add(random q=1, random q=1)", "evolve(#0:add, tdvp_ps, dt=0.05, krylov)", "H@#1:evolve"],
                 "contract": "all other live objects unchanged; result shares no memory with inputs"})
+    run.rule += ("; tree histories (copy, to_complex, scale, add, TTNO.apply/contract, expectation, RDMs, entropy, evolve with the 4 tree schemes in real and imaginary time, compress of a "
+                 "copy, then in-place scale/normalize/canonicalise/compress of the result or of another live object) on enumerated trees; compressed_sum over 1-4 summands; operator and "
+                 "density-operator methods; plus the static effect obligations")
     run.explanation = "see rule; exemptions per property text: OFS re-orders the Hamiltonian in place, optimize_mps overwrites its initial guess"
     run.trusted += ["independent dense contraction as denotation"]
